@@ -33,11 +33,32 @@ def tstr(t, syntax="z"):
         return t
     if syntax in FRACTIONS:
         return S.fmt_time(t, z=False) + FRACTIONS[syntax] + "Z"
+    if syntax in OFFSETS:  # the SAME instant written with a numeric zone designator
+        sec, frac = OFFSETS[syntax]
+        return S.fmt_time(t + sec, z=False) + frac + "%s%02d:%02d" % ("-" if sec < 0 else "+", abs(sec) // 3600, abs(sec) % 3600 // 60)
+    if syntax == "nozone":
+        return S.fmt_time(t, z=False)
     return S.fmt_time(t, frac=(syntax == "frac"))
 
 
 # fractional-second syntaxes (xs:dateTime allows any number of digits; .NET writes 7, some Java stacks 9)
 FRACTIONS = {"frac1": ".5", "frac6": ".123456", "frac7": ".1234567", "frac9": ".123456789", "frac0s": ".000"}
+
+
+# numeric zone designators (legal xs:dateTime, not legal SAML: core 1.3.3 demands UTC form); the library does not read them
+OFFSETS = {"off+02": (7200, ""), "off-0330f": (-12600, ".25"), "off+00": (0, ""), "off+0530": (19800, ""),
+           "off-12": (-43200, ""), "off+09f": (32400, ".1234567")}
+
+
+def time_form(syntax):
+    """Lexical class of a timestamp syntax (Lean: Sp.TimeForm)."""
+    if syntax in OFFSETS:
+        return "offset"
+    if syntax == "nozone":
+        return "noZone"
+    if syntax in FRACTIONS or syntax == "frac":
+        return "fraction"
+    return "utc"
 
 
 def sig_template(ref_id, key_name=None, keyinfo="cert", digest="http://www.w3.org/2000/09/xmldsig#sha1",
@@ -386,6 +407,32 @@ def _run_sp(case):
         # the second public entry point: saml2.response.authn_response(...) + loads() + verify()
         from saml2.response import authn_response
 
+        if env.get("via") == "response_factory":
+            # the third public entry point: saml2.response.response_factory(...) (loads inside) + verify()
+            from saml2.response import response_factory
+
+            with S.clock(env["now"]):
+                try:
+                    ar = response_factory(xml, sp.config, list(case.get("return_addrs") or []), outstanding, 0, False, 0, None,
+                                          binding not in ("soap", "paos"),
+                                          bool(case["cfg"].get("allow_unsolicited", False)),
+                                          bool(case["cfg"].get("want_assert", False)), conv)
+                    r = ar.verify() if ar is not None else None
+                except Exception as e:
+                    return {"r": "rejected", "err": type(e).__name__, "cached": False}
+                if r is None:
+                    return {"r": "none", "cached": False}
+                name_id = r.name_id.text if getattr(r, "name_id", None) is not None else None
+                try:
+                    si = r.session_info()
+                except Exception:
+                    si = None
+            if name_id is None and not r.ava and si is None:
+                return {"r": "none", "cached": False}
+            return {"r": "identity", "name_id": name_id, "issuer": si["issuer"] if si else None,
+                    "came_from": si["came_from"] if si else r.came_from,
+                    "not_on_or_after": si["not_on_or_after"] if si else None,
+                    "session_index": si["session_index"] if si else None, "cached": False}
         with S.clock(env["now"]):
             try:
                 ar = authn_response(sp.config, list(case.get("return_addrs") or []), outstanding,
